@@ -452,6 +452,11 @@ def run(ctx: Context, rep) -> None:
     # nothing read from the dataset's files / the environment is memoised
     from sa.rules import shared as _shm
     _shm.check_no_memo(ctx, rep, "C08.memo")
+    from sa.rules import shared as _sh08
+    # a kept handle re-reads the lists on every pass and the selection does
+    # not merge distinct shards (same checks as C02.walk, C12.stages)
+    _sh08.share_rules(ctx, rep, "c02", {"C02.walk": "C08.walk"})
+    _sh08.share_rules(ctx, rep, "c12", {"C12.stages": "C08.stages"})
     # the parent merges what the WORKERS wrote (same check as C09.collect)
     from sa.rules import shared as _sh08
     _sh08.share_rules(ctx, rep, "c09", {"C09.collect": "C08.collect"})
